@@ -142,6 +142,11 @@ def check_effective_args(rep, cc, rule, site_suffix, fparam='f', aparam='args'):
         if isinstance(c, ast.Call) and isinstance(c.func, ast.Name) and \
             c.func.id == 'converted_f' and c.args and isinstance(c.args[0], ast.Starred):
           sites.append((st, c.args[0].value))
+        # ... or handed to a helper that makes the call: h(converted_f, *args, ..)
+        elif isinstance(c, ast.Call) and len(c.args) >= 2 and isinstance(
+            c.args[0], ast.Name) and c.args[0].id == 'converted_f' and isinstance(
+                c.args[1], ast.Starred):
+          sites.append((st, c.args[1].value))
   if not sites:
     raise core.AnalysisError('converted_call: execution of the converted function not found')
   bad, seen = [], set()
